@@ -1,7 +1,7 @@
 """Run in a fresh interpreter: compile the given program files in order through the real entry point and print
 one JSON list — {"mir": <raw MIR>} or {"err": <exception class>, "msg": …} per program.
 
-usage: python -m nv.real.fresh_hist <script|string> <path> [<path> ...]"""
+usage: python -m nv.real.fresh_hist <script|string> <path | @write:dst=src> [...]"""
 import base64
 import contextlib
 import io
@@ -14,6 +14,14 @@ def main():
     from nada_dsl.compile import compile_script, compile_string
     out = []
     for path in paths:
+        if path.startswith("@write:"):
+            # `@write:<destination>=<source>`: the program file is replaced by another text before the next compilation
+            dst, src = path[len("@write:"):].split("=", 1)
+            with open(src, encoding="utf-8") as f:
+                text = f.read()
+            with open(dst, "w", encoding="utf-8") as f:
+                f.write(text)
+            continue
         try:
             with contextlib.redirect_stdout(io.StringIO()):
                 if via == "script":
